@@ -37,8 +37,8 @@ TIERS = {
                   base=(32, ["-epochs", "2", "-rounds", "3", "-ops", "3000"]),
                   hazard=(24, ["-epochs", "24", "-rounds", "1", "-ops", "300", "-close", "soft-gets,force-race,soft-release"])),
     "thorough": dict(mc="Cache_thorough.cfg", mc_timeout=1750,
-                     base=(96, ["-epochs", "3", "-rounds", "4", "-ops", "4000"]),
-                     hazard=(48, ["-epochs", "60", "-rounds", "1", "-ops", "300", "-close", "soft-gets,force-race,soft-release"])),
+                     base=(320, ["-epochs", "3", "-rounds", "4", "-ops", "4000"]),
+                     hazard=(160, ["-epochs", "60", "-rounds", "1", "-ops", "300", "-close", "soft-gets,force-race,soft-release"])),
 }
 
 
